@@ -23,7 +23,7 @@ from sim import driver  # noqa: E402
 driver.bootstrap()
 
 from sim import gen_docs, model, snapshot  # noqa: E402
-from sim.util import QuietLog, strict_load  # noqa: E402
+from sim.util import CommentOverlap, QuietLog, strict_load  # noqa: E402
 from sim.world import World  # noqa: E402
 from yamlpath import Processor  # noqa: E402
 from yamlpath.common import Parsers  # noqa: E402
@@ -175,7 +175,11 @@ def reload_check(doc, knobs, prop, what):
     except Exception as ex:  # pylint: disable=broad-except
         raise Violation(prop, "serialize-raised:" + type(ex).__name__,
                         {"after": what, "error": str(ex)[:200]}) from ex
-    again, loaded = strict_load(text)
+    try:
+        again, loaded = strict_load(text)
+    except CommentOverlap as ex:
+        raise SessionAbort("ruamel cannot re-attach the comments of its own "
+                           "dump") from ex
     if not loaded:
         raise Violation(prop, "reload-rejected-by-strict-loader",
                         {"after": what, "yaml": text[:600]})
@@ -497,12 +501,16 @@ class Session:
         return debug_log() if self.debug else QuietLog()
 
     def step(self, oper):
-        if self.debug:
-            import contextlib
-            import io
-            with contextlib.redirect_stdout(io.StringIO()):
-                return self.step_(oper)
-        return self.step_(oper)
+        try:
+            if self.debug:
+                import contextlib
+                import io
+                with contextlib.redirect_stdout(io.StringIO()):
+                    return self.step_(oper)
+            return self.step_(oper)
+        except CommentOverlap as ex:
+            raise SessionAbort("ruamel cannot attach the comments of a "
+                               "document it wrote") from ex
 
     def step_(self, oper):
         self.stats["steps"] += 1
@@ -1128,6 +1136,7 @@ def gen_session(rng, prop, tier):
         rng, sets=rng.random() < 0.2, anchors=rng.random() < 0.65,
         nonascii=rng.random() < 0.1, mergekeys=merges, twins=0.18,
         special=rng.random() < 0.15, intkeys=rng.random() < 0.1,
+        multiline=rng.random() < 0.2,
         max_nodes=rng.choice([4, 8, 14, 22, 30]),
         max_depth=rng.choice([2, 3, 4]))
     doc = gen.document()
@@ -1137,6 +1146,16 @@ def gen_session(rng, prop, tier):
         and not gen.intkeys
     text = gen_docs.to_yaml(doc, style="flow" if flow else "block",
                             start=rng.random() < 0.7)
+    if not flow and rng.random() < 0.2:
+        # keep-chomped block scalars with trailing blank lines (comments
+        # are deliberately absent, see gen_docs.decorate)
+        plain = text
+        text = gen_docs.decorate(text, rng)
+        try:
+            if not strict_load(text)[1]:
+                text = plain
+        except CommentOverlap:
+            text = plain
     steps = rng.choice([1, 2, 3, 4, 6, 8, 12])
     knobs = {"text_buf": rng.choice([1, 5, 32, 8192]),
              "write_through": rng.random() < 0.5}
